@@ -6,7 +6,7 @@
    on_dial_failure operations with keys of length L; K is the bucket size (20 in litep2p). *)
 From Coq Require Import List Bool Arith NArith Permutation Sorted.
 From V.gen Require Consts.
-From V.C14 Require Import Model Proofs.
+From V.C14 Require Import Model Proofs U256.
 Import ListNotations.
 
 (* Placement: every peer stored in bucket i (everything except the address-less dummy that
@@ -173,6 +173,183 @@ Proof.
   exact (closest_facts local K _ tgt k HL (reach_inv local K h Hw) Ht Hc).
 Qed.
 Print Assumptions C14_closest_exactly_k_closest.
+
+(* ---------------------------------------------------------------- sort first or filter first
+
+   KBucket::closest_iter sorts the whole bucket by distance and then drops the peers without an
+   address; Model.bucket_closest drops first.  For the stable sort and full-length keys the two
+   orders commute, whatever (random) keys the dummies carry in the implementation. *)
+Theorem C14_sort_filter_commute :
+  forall tgt (p : node -> bool) l, Forall (full tgt) l ->
+  filter p (sort_by_dist tgt l) = sort_by_dist tgt (filter p l).
+Proof. exact filter_sort_commute. Qed.
+Print Assumptions C14_sort_filter_commute.
+
+Theorem C14_code_order_equals_model :
+  forall tgt b b', same_but_dummies b b' -> Forall (full tgt) b' ->
+  bucket_closest_code tgt b' = bucket_closest tgt b.
+Proof. exact bucket_closest_code_eq. Qed.
+Print Assumptions C14_code_order_equals_model.
+
+(* ---------------------------------------------------------------- U256 arithmetic
+
+   val = U256::from_big_endian on the bit string; the code computes distances with integer xor,
+   the bucket index as (256 - leading_zeros).checked_sub(1), compares distances as integers and
+   reads bits with U256::bit.  These are the list-of-bits operations of the model. *)
+Theorem C14_index_is_ilog2_xor :
+  forall a b, length a = length b ->
+  ilog2 (kxor a b) =
+  match u_ilog2 (N.of_nat (length a)) (N.lxor (val a) (val b)) with
+  | None => None | Some x => Some (N.to_nat x) end.
+Proof. exact index_is_ilog2_xor. Qed.
+Print Assumptions C14_index_is_ilog2_xor.
+
+Theorem C14_distance_compare_u256 :
+  forall t a b, length a = length t -> length b = length t ->
+  klt (kxor t a) (kxor t b) = (N.lxor (val t) (val a) <? N.lxor (val t) (val b))%N.
+Proof. exact distance_compare. Qed.
+Print Assumptions C14_distance_compare_u256.
+
+Theorem C14_bit_is_testbit : forall d i, bit (rev d) i = u_bit (val d) i.
+Proof. exact val_bit. Qed.
+Print Assumptions C14_bit_is_testbit.
+
+Theorem C14_key_value_injective :
+  forall a b, length a = length b -> val a = val b -> a = b.
+Proof. exact val_inj. Qed.
+Print Assumptions C14_key_value_injective.
+
+(* bytes: comparing the distances as U256 (from_big_endian of the 32 bytes, xor, integer order)
+   is the lexicographic comparison of the bytewise-XORed strings, and is the model's klt/kxor *)
+Theorem C14_bytes_distance_compare :
+  forall t a b,
+  Forall (fun x => (x < 256)%N) t -> Forall (fun x => (x < 256)%N) a -> Forall (fun x => (x < 256)%N) b ->
+  length a = length t -> length b = length t ->
+  bytes_lt (bytes_xor t a) (bytes_xor t b) =
+    (N.lxor (bytes_val t) (bytes_val a) <? N.lxor (bytes_val t) (bytes_val b))%N /\
+  bytes_lt (bytes_xor t a) (bytes_xor t b) =
+    klt (kxor (key_of_bytes t) (key_of_bytes a)) (kxor (key_of_bytes t) (key_of_bytes b)).
+Proof. exact bytes_distance_compare. Qed.
+Print Assumptions C14_bytes_distance_compare.
+
+Theorem C14_bytes_value :
+  forall bs, Forall (fun x => (x < 256)%N) bs -> val (key_of_bytes bs) = bytes_val bs.
+Proof. exact val_key_of_bytes. Qed.
+Print Assumptions C14_bytes_value.
+
+(* ---------------------------------------------------------------- the Kademlia glue (mod.rs)
+
+   kreach local K h = table and PeerContext set after any history h of the glue operations that
+   write the table: AddKnownPeer / bootstrap, on_connection_established, disconnect_peer,
+   PeerContext creation, update_routing_table with any reply, on_dial_failure, bare entry(). *)
+Theorem C14_kad_invariant :
+  forall local K h, Forall (wf_kop local) h -> Inv local K (k_table (kreach local K h)).
+Proof. exact kreach_inv. Qed.
+Print Assumptions C14_kad_invariant.
+
+Theorem C14_kad_buckets :
+  forall local K h i, Forall (wf_kop local) h ->
+  let b := nth i (k_table (kreach local K h)) [] in
+  length b <= K /\ NoDup (map n_key (filter real b)) /\
+  forall n, In n b -> real n = true ->
+    length (n_key n) = length local /\ ilog2 (kxor local (n_key n)) = Some i /\ n_key n <> local.
+Proof.
+  intros local K h i H. pose proof (kreach_inv local K h H) as HI. cbv zeta.
+  split; [exact (inv_bound local K _ i HI)|]. split; [exact (inv_unique local K _ i HI)|].
+  intros n. exact (inv_placement local K _ i n HI).
+Qed.
+Print Assumptions C14_kad_buckets.
+
+Theorem C14_kad_step_preserves :
+  forall local K s o, Inv local K (k_table s) -> wf_kop local o ->
+  Inv local K (k_table (kstep local K s o)).
+Proof. exact kstep_inv. Qed.
+Print Assumptions C14_kad_step_preserves.
+
+(* a Connected / CanConnect peer is never displaced by a glue operation that does not name it *)
+Theorem C14_kad_connected_kept :
+  forall local K s o j n,
+  In n (nth j (k_table s) []) -> protected n = true -> ~ In (n_key n) (kop_keys o) ->
+  In n (nth j (k_table (kstep local K s o)) []).
+Proof. exact kstep_keeps. Qed.
+Print Assumptions C14_kad_connected_kept.
+
+(* F-C14b (repaired): an entry that says Connected is still stored and still says Connected
+   (and keeps its address) after every glue operation except disconnect_peer for that very peer —
+   which the loop runs when the connection closes or a substream / IO with the peer fails.  So a
+   connected peer is never downgraded, hence never evictable, by being heard of again. *)
+Theorem C14_kad_connected_step :
+  forall local K s o j n,
+  In n (nth j (k_table s) []) -> n_conn n = Connected -> o <> KDisconnect (n_key n) ->
+  exists n', In n' (nth j (k_table (kstep local K s o)) []) /\ conn_still n n'.
+Proof. intros. apply kstep_connected; auto using add_conn_keeps. Qed.
+Print Assumptions C14_kad_connected_step.
+
+Theorem C14_kad_connected_until_disconnect :
+  forall local K h s j n,
+  In n (nth j (k_table s) []) -> n_conn n = Connected -> ~ In (KDisconnect (n_key n)) h ->
+  exists n', In n' (nth j (k_table (krun local K s h)) []) /\ conn_still n n'.
+Proof. intros. apply krun_connected; auto using add_conn_keeps. Qed.
+Print Assumptions C14_kad_connected_until_disconnect.
+
+(* before the repair (entry.connection = connection) this failed: a reply that mentions a
+   connected peer downgraded its entry although no disconnect happened *)
+Theorem C14_mention_downgrade_refuted_before_fix :
+  exists local K h s j n,
+    In n (nth j (k_table s) []) /\ n_conn n = Connected /\ ~ In (KDisconnect (n_key n)) h /\
+    Forall (wf_kop local) h /\
+    ~ exists n', In n' (nth j (k_table (krun_gen add_conn_orig local K s h)) []) /\ conn_still n n'.
+Proof.
+  exists [false; false; false], 20,
+         [KUpdate [([true; false; true], true)]],
+         (krun_gen add_conn_orig [false; false; false] 20 (kad_empty 3)
+            [KAddKnown [true; false; true] true; KEstablished [true; false; true] true false]),
+         2, (mkNode [true; false; true] true Connected).
+  split; [vm_compute; auto|]. split; [reflexivity|]. split.
+  - intros [H|[]]. discriminate.
+  - split; [repeat constructor|].
+    intros [n' [Hin [_ [Hc _]]]]. vm_compute in Hin. destruct Hin as [<-|[]]. discriminate.
+Qed.
+Print Assumptions C14_mention_downgrade_refuted_before_fix.
+
+(* ---------------------------------------------------------------- replies to FIND_NODE / GET_VALUE /
+   GET_PROVIDERS requests: the handler sends closest(hash(target), replication_factor) verbatim. *)
+Theorem C14_reply_sound :
+  forall local K s tgt k n,
+  Inv local K (k_table s) -> In n (reply local s tgt k) ->
+  n_key n <> local /\ n_addr n = true /\ length (n_key n) = length local /\
+  exists i, In n (nth i (k_table s) []) /\ ilog2 (kxor local (n_key n)) = Some i.
+Proof. exact reply_sound. Qed.
+Print Assumptions C14_reply_sound.
+
+Theorem C14_reply_at_most_k : forall local s tgt k, length (reply local s tgt k) <= k.
+Proof. exact reply_at_most_k. Qed.
+Print Assumptions C14_reply_at_most_k.
+
+Theorem C14_reply_exactly_k_closest :
+  forall local K h tgt k,
+  1 <= length local -> Forall (wf_kop local) h -> length tgt = length local ->
+  outside_class local (k_table (kreach local K h)) tgt ->
+  let res := reply local (kreach local K h) tgt k in
+  let cands := filter n_addr (concat (k_table (kreach local K h))) in
+  StronglySorted (dlt tgt) res /\ NoDup (map n_key res) /\
+  (forall n, In n res -> In n cands) /\
+  length res = Nat.min k (length cands) /\
+  (forall a b, In a res -> In b cands -> ~ In b res -> dlt tgt a b).
+Proof.
+  intros local K h tgt k HL Hw Ht Hc.
+  exact (closest_facts local K _ tgt k HL (kreach_inv local K h Hw) Ht Hc).
+Qed.
+Print Assumptions C14_reply_exactly_k_closest.
+
+(* the handler does not remove the requester from the reply: a requester that is stored with an
+   address and is among the k closest to the target is sent back to itself *)
+Example C14_reply_may_contain_requester :
+  let local := [false; false; false] in
+  let requester := [true; false; true] in
+  let s := kreach local 20 [KAddKnown requester true; KTouch requester] in
+  map n_key (reply local s requester 20) = [requester].
+Proof. vm_compute. reflexivity. Qed.
 
 (* non-vacuity: 3-bit keys, K = 2; bucket 2 overflows, a NotConnected peer is replaced, the
    Connected ones stay, and closest returns the addressed peers in distance order *)
